@@ -6,7 +6,7 @@ parsed by the real code; oracle = the abstract facts the record was rendered fro
 import itertools
 import os
 
-from vf.harness import use_world, outcome, freeze, sample
+from vf.harness import use_world, outcome, freeze, sample, guarded
 from vf.simk.world import World, Thread, CLK_TCK
 
 ID = "C06"
@@ -183,7 +183,7 @@ def worker(chunk):
     w.logging = False
     out = []
     for c in cases:
-        bad, lab = run_case(c, (w, p))
+        bad, lab = guarded(run_case, c, (w, p), pair=True)
         out.append((lab, bad))
     return out
 
@@ -273,5 +273,5 @@ def replay(ctx, case):
     c = dec(case)
     w, p = mk_world(ctx.seed)
     use_world(w)
-    bad, lab = run_case(c, (w, p))
+    bad, lab = guarded(run_case, c, (w, p), pair=True)
     return {"violated": bool(bad), "viols": bad}
